@@ -322,3 +322,67 @@ func appendUnique(a []string, s string) []string {
 	}
 	return append(a, s)
 }
+
+// TwoKeySpecCases: one function reachable under TWO contract keys with different matrices, both call sites in the same
+// program: (a) a function contract and an interface-method contract for its only implementation (static call and
+// interface call), (b) two interfaces with a same-named method and different contracts sharing the implementation.
+// Every (flows through key 1?, flows through key 2?) combination, both orders of the call sites.
+func TwoKeySpecCases() []SpecCase {
+	var out []SpecCase
+	one := func(flow bool) summaryJSON {
+		s := summaryJSON{Args: [][]int{{0}, {1}}, Rets: [][]int{{}, {}}}
+		if flow {
+			s.Rets[1] = []int{0}
+		}
+		return s
+	}
+	for _, kind := range []string{"fnAndIface", "twoIfaces"} {
+		for _, f1 := range []bool{false, true} {
+			for _, f2 := range []bool{false, true} {
+				for _, rev := range []bool{false, true} {
+					var sb strings.Builder
+					sb.WriteString(shapeHeader)
+					// the body flows iff NEITHER... it implements the complement of key 1, so consulting it is observable
+					body := "\treturn \"c\"\n"
+					if !f1 {
+						body = "\treturn \"c\" + p0\n"
+					}
+					var spec []map[string]any
+					var c1, c2 string
+					if kind == "fnAndIface" {
+						sb.WriteString("type I interface{ Spec(p0 string) string }\ntype K struct{}\nfunc (K) Spec(p0 string) string {\n" + body + "}\n")
+						spec = append(spec, map[string]any{"InterfaceId": MainPath + ".I", "Methods": map[string]any{"Spec": one(f1)}})
+						spec = append(spec, map[string]any{"ObjectPath": "(" + MainPath + ".K)", "Methods": map[string]any{"Spec": one(f2)}})
+						c1 = "\tvar it I = K{}\n\tv0 := rt.Source1()\n\tr0 := it.Spec(v0)\n\trt.Sink1(r0)\n"
+						c2 = "\tw0 := rt.Source3()\n\tr1 := K{}.Spec(w0)\n\trt.Sink3(r1)\n"
+					} else {
+						sb.WriteString("type I interface{ Spec(p0 string) string }\ntype J interface{ Spec(p0 string) string }\ntype K struct{}\nfunc (K) Spec(p0 string) string {\n" + body + "}\n")
+						spec = append(spec, map[string]any{"InterfaceId": MainPath + ".I", "Methods": map[string]any{"Spec": one(f1)}})
+						spec = append(spec, map[string]any{"InterfaceId": MainPath + ".J", "Methods": map[string]any{"Spec": one(f2)}})
+						c1 = "\tvar it I = K{}\n\tv0 := rt.Source1()\n\tr0 := it.Spec(v0)\n\trt.Sink1(r0)\n"
+						c2 = "\tvar jt J = K{}\n\tw0 := rt.Source3()\n\tr1 := jt.Spec(w0)\n\trt.Sink3(r1)\n"
+					}
+					sb.WriteString("func main() {\n")
+					if rev {
+						sb.WriteString(c2 + c1)
+					} else {
+						sb.WriteString(c1 + c2)
+					}
+					sb.WriteString("}\n")
+					exp := map[string][]string{}
+					if f1 {
+						exp["1"] = []string{"S1"}
+					}
+					if f2 {
+						exp["3"] = []string{"S3"}
+					}
+					sjb, _ := json.Marshal(spec)
+					sig := fmt.Sprintf("spec2[%s key1=%v key2=%v rev=%v]", kind, f1, f2, rev)
+					out = append(out, SpecCase{Sig: sig, Atoms: []string{"form:" + kind, "twokeys", fmt.Sprintf("differ:%v", f1 != f2)},
+						Src: sb.String(), SpecJSON: string(sjb), Expect: exp, Allowed: exp})
+				}
+			}
+		}
+	}
+	return out
+}
